@@ -1,0 +1,34 @@
+//! Read-only accessors for the verification harness (`--cfg garnish_core_verif`).
+use crate::basic::companion::BasicDataCompanion;
+use crate::basic::{BasicDataCustom, BasicGarnishData};
+use crate::BasicData;
+
+impl<T, Companion> BasicGarnishData<T, Companion>
+where
+    T: BasicDataCustom,
+    Companion: BasicDataCompanion<T>,
+{
+    /// `(start, cursor, size)` of the instruction, jump table, symbol table,
+    /// expression symbol, data and custom data blocks, in that order.
+    pub fn verif_block_layout(&self) -> [(usize, usize, usize); 6] {
+        let t = |b: &crate::basic::storage::StorageBlock| (b.start, b.cursor, b.size);
+        [
+            t(self.instruction_block()),
+            t(self.jump_table_block()),
+            t(self.symbol_table_block()),
+            t(self.expression_symbol_block()),
+            t(self.data_block()),
+            t(self.custom_data_block()),
+        ]
+    }
+
+    /// The whole heap vector.
+    pub fn verif_heap(&self) -> &[BasicData<T>] {
+        self.data()
+    }
+
+    /// Heads of the value, register and frame chains.
+    pub fn verif_heads(&self) -> (Option<usize>, Option<usize>, Option<usize>) {
+        (self.current_value(), self.current_register(), self.current_frame())
+    }
+}
